@@ -24,7 +24,7 @@ RULE = ("a case is a history of register / call_when_ready / "
 ASSUMPTIONS = ["re-registering an already registered name is not exercised",
                "concurrent quit() calls from several OS threads are outside "
                "the statement"]
-REQUIRED = ["waiters_fired", "dependency_handlers_that_are_not_methods", "sinks_that_are_modules", "fired_on_later_register", "fired_immediately",
+REQUIRED = ["waiters_fired", "histories_with_very_many_components", "dependency_handlers_that_are_not_methods", "sinks_that_are_modules", "fired_on_later_register", "fired_immediately",
             "chained_register", "callback_failed", "ltd_wired", "ltd_events",
             "lifecycles", "up_deferred", "quits", "quits_during_startup",
             "registrations_by_class_or_core_name", "rendezvous_histories_that_go_up",
@@ -745,6 +745,26 @@ def gen_rdv_random (rng, n):
     yield c
 
 
+def gen_rdv_mass (rng, sizes):
+  """Hundreds of components and of callbacks waiting for them (a controller
+  with many small modules): everything is declared first, then the
+  components arrive in no particular order, a few more waiters afterwards."""
+  for n in sizes:
+    names = ["m%d" % i for i in range(n)]
+    ops = []
+    for i in range(n):
+      deps = [names[i]] + rng.sample(names, rng.randrange(0, 3))
+      ops.append(["cwr", deps, rng.choice(["list", "set", "tuple"]), rand_behaviour(rng, 0)])
+    order = list(names); rng.shuffle(order)
+    for k, nm in enumerate(order):
+      ops.append(["reg", nm, "plain"])
+      if k % 50 == 7:
+        ops.append(["cwr", rng.sample(names, 2), "list", rand_behaviour(rng, 0)])
+    for _ in range(10):
+      ops.append(["cwr", rng.sample(names, rng.randrange(0, 4)), "list", rand_behaviour(rng, 0)])
+    yield dict(kind="rdv", ops=ops, rv=0, mass=n)
+
+
 def gen_life (rng, n):
   # enumerated core set
   base = []
@@ -802,11 +822,13 @@ def plan (tier, seed):
     sp = [dict(mode="exh", shard=i, nshards=6, big=False) for i in range(6)]
     sp += [dict(mode="rand", n=2500, sub=i) for i in range(6)]
     sp += [dict(mode="life", n=150, sub=i) for i in range(3)]
+    sp += [dict(mode="mass", sizes=[40, 70, 300], sub=0), dict(mode="mass", sizes=[600], sub=1)]
     return sp
   sp = [dict(mode="exh", shard=i, nshards=4, big=False) for i in range(4)]
   sp += [dict(mode="exh", shard=i, nshards=32, big=True) for i in range(32)]
   sp += [dict(mode="rand", n=150000, sub=i) for i in range(32)]
   sp += [dict(mode="life", n=6000, sub=i) for i in range(16)]
+  sp += [dict(mode="mass", sizes=[k], sub=k) for k in (65, 130, 260, 520, 1030, 2060)]
   return sp
 
 
@@ -817,12 +839,17 @@ def run (spec, rep):
     g = gen_rdv_exhaustive(spec["shard"], spec["nshards"], spec["big"])
   elif spec["mode"] == "rand":
     g = gen_rdv_random(rng, spec["n"])
+  elif spec["mode"] == "mass":
+    g = gen_rdv_mass(rng, spec["sizes"])
   else:
     g = gen_life(rng, spec["n"])
     if spec.get("sub", 0) > 0:
       g = (c for i, c in enumerate(g) if i >= 0)
   first = True
   for case in g:
+    if case.get("mass"):
+      rep.count("histories_with_very_many_components")
+      rep.maxi("components_in_one_history", case["mass"])
     do_case(case, rep)
     if first: rep.sample(case); first = False
 
